@@ -14,3 +14,4 @@ import MhlModel.Crash
 import MhlModel.Xml
 import MhlModel.XsdCore
 import MhlModel.Gen.Xsd
+import MhlModel.Paths
